@@ -1019,7 +1019,7 @@ impl RoomAuthorisations {
 
     pub const LOAD_QUERY: &'static str = "
         query LOAD_ROOMS{
-            sys.Room {
+            sys.Room (nullable(admin, authorisations)) {
                 id
                 mdate
                 room_id
@@ -1074,11 +1074,11 @@ impl RoomAuthorisations {
                 .unwrap();
 
             let mut authorisations = HashMap::new();
+            let no_entry = Vec::new();
             let auth_array = room_map
                 .get(ROOM_AUTHORISATION_FIELD)
-                .unwrap()
-                .as_array()
-                .unwrap();
+                .and_then(|v| v.as_array())
+                .unwrap_or(&no_entry);
             for auth_value in auth_array {
                 let auth = load_auth_from_json(auth_value)?;
                 authorisations.insert(auth.id, auth);
@@ -1091,7 +1091,10 @@ impl RoomAuthorisations {
                 admins: HashMap::new(),
             };
 
-            let admin_array = room_map.get(ROOM_ADMIN_FIELD).unwrap().as_array().unwrap();
+            let admin_array = room_map
+                .get(ROOM_ADMIN_FIELD)
+                .and_then(|v| v.as_array())
+                .unwrap_or(&no_entry);
             for value in admin_array {
                 let user = load_user_from_json(value)?;
                 room.add_admin_user(user)?;
